@@ -262,11 +262,47 @@ Definition forest_of (ov : list (option nat)) (cs : list nat) : forest :=
   {| overs := ov; unders := unders_of ov; counts := map (fun _ => cs) ov |}.
 
 (* --- correspondence --- *)
+(* ---- building the boxwork with the bx verb: Boxer.bx(name, over) where over is an explicit box (by name or
+   object), None (top level), or left to its default "" = the current level, i.e. the over given to the previously
+   declared box (None before the first box): "m.over = over" after every declaration ---- *)
+Inductive omode := MExplicit (o : nat) | MNone | MDefault.
+
+Definition resolve_over (level : option nat) (m : omode) : option nat :=
+  match m with MExplicit o => Some o | MNone => None | MDefault => level end.
+
+Fixpoint build_from (level : option nat) (ds : list (nat * omode)) : list (nat * option nat) :=
+  match ds with
+  | [] => []
+  | (b, m) :: ds' => let o := resolve_over level m in (b, o) :: build_from o ds'
+  end.
+(* (box, its over) in declaration order *)
+Definition build (ds : list (nat * omode)) : list (nat * option nat) := build_from None ds.
+(* over.unders.append(box) in declaration order *)
+Definition built_unders (bo : list (nat * option nat)) (b : nat) : list nat :=
+  map fst (filter (fun e => option_nat_eqb (snd e) (Some b)) bo).
+Fixpoint built_over (bo : list (nat * option nat)) (b : nat) : option (option nat) :=
+  match bo with
+  | [] => None
+  | (b', o) :: bo' => if Nat.eqb b' b then Some o else built_over bo' b
+  end.
+
 Record case := { c_forest : forest;
                  c_ops : list op;
-                 c_obs : list (status * list ev) }.
+                 c_obs : list (status * list ev);
+                 c_decl : list (nat * omode);                       (* the bx declarations, [] = boxes linked directly *)
+                 c_built : list (nat * option nat * list nat) }.    (* observed per declared box: over, unders *)
+
+(* the structure bx built is the model's fold, and it is the forest the case runs on *)
+Definition check_built (c : case) : bool :=
+  let bo := build (c_decl c) in
+  list_eqb (fun x y => Nat.eqb (fst (fst x)) (fst (fst y)) && option_nat_eqb (snd (fst x)) (snd (fst y))
+                       && list_eqb Nat.eqb (snd x) (snd y))
+           (map (fun e => (fst e, snd e, built_unders bo (fst e))) bo) (c_built c) &&
+  forallb (fun e => option_nat_eqb (over (c_forest c) (fst e)) (snd e) &&
+                    list_eqb Nat.eqb (nth (fst e) (unders (c_forest c)) []) (built_unders bo (fst e))) bo.
 
 Definition check_case (c : case) : bool :=
+  check_built c &&
   list_eqb (pair_eqb status_eqb (list_eqb ev_eqb)) (run (c_forest c) Idle (c_ops c)) (c_obs c).
 
 (* branch classifier: one id per op *)
